@@ -132,51 +132,64 @@ def perm_axis(repo, res):
         res.fail(key, "the permutation axis is not reduced exactly when is_permuted_table(table) is false", m.line(f.node))
     elif f"is_permuted={mm.group(1)}" not in src:
         res.fail(key, "the table reference's is_permuted flag is not the result of is_permuted_table", m.line(f.node))
-    g = m.func("is_permuted_table")
-    key = f"{g.key}:compares-all-slices"
-    res.ob(key)
-    gs = ast.unparse(g.node)
-    if not re.search(r"return not all\(\(np\.allclose\(table\[0, :, :, :\], table\[i, :, :, :\], rtol=rtol, atol=atol\) for i in range\(1, table\.shape\[0\]\)\)\)", gs):
-        res.fail(key, "is_permuted_table does not compare every permutation slice with slice 0", m.line(g.node))
-    # point maps: number of applications
-    for nm, (nrot, nref) in want.items():
+    # is_permuted_table: slices compared over full axes - rule TABLE-INDEX
+    # point maps: interpreted on sample points for every (rotations, reflections) the table builder uses
+    from fractions import Fraction as Fr
+
+    from ..absint import Interp as _I, Raised as _R
+    from ..lnodes_model import load_classes as _lc
+
+    def interval(p_, ref, rot):
+        x, = p_
+        for _ in range(ref):
+            x = 1 - x
+        return [x]
+
+    def triangle(p_, ref, rot):
+        x, y = p_
+        for _ in range(rot):
+            x, y = y, 1 - x - y
+        for _ in range(ref):
+            x, y = y, x
+        return [x, y]
+
+    def quadrilateral(p_, ref, rot):
+        x, y = p_
+        for _ in range(rot):
+            x, y = y, 1 - x
+        for _ in range(ref):
+            x, y = y, x
+        return [x, y]
+
+    specs = {"permute_quadrature_interval": (interval, [[Fr(1, 5)], [Fr(3, 4)]], [(r, 0) for r in range(2)]),
+             "permute_quadrature_triangle": (triangle, [[Fr(1, 5), Fr(1, 3)], [Fr(1, 2), Fr(1, 8)]], [(r, t) for t in range(3) for r in range(2)]),
+             "permute_quadrature_quadrilateral": (quadrilateral, [[Fr(1, 5), Fr(1, 3)], [Fr(7, 8), Fr(1, 8)]], [(r, t) for t in range(4) for r in range(2)])}
+    for nm, (spec, pts, combos) in specs.items():
         h = m.func(nm)
         res.functions.add(h.key)
-        key = f"{h.key}:repeat-counts"
-        res.ob(key)
-        loops = [n for n in walk_no_nested(h.node) if isinstance(n, ast.For) and isinstance(n.iter, ast.Call) and call_name(n.iter) == "range"
-                 and n.iter.args and isinstance(n.iter.args[0], ast.Name)]
-        loops.sort(key=lambda n: n.lineno)
-        reps = [n.iter.args[0].id for n in loops]
-        expect = ["reflections"] if nrot is None else ["rotations", "reflections"]
-        if reps != expect:
-            res.fail(key, f"{nm} repeats its maps over {reps}; expected {expect} (rotate `rotations` times, then reflect `reflections` times)", m.line(h.node))
+        for ref, rot in combos:
+            key = f"{h.key}:map:reflections={ref},rotations={rot}"
+            res.ob(key)
+            it_ = _I(repo, _lc(repo), primary=ET)
+            src = [list(p_) for p_ in pts]
+            try:
+                args = [src, ref] if nm.endswith("interval") else [src, ref, rot]
+                out = it_.call_f(h, args)
+            except _R as e:
+                res.fail(key, f"{nm} raises ({e.what})", m.line(h.node))
+                continue
+            want_ = [spec(p_, ref, rot) for p_ in pts]
+            if [list(o) for o in out] != want_:
+                res.fail(key, f"{nm}(points, reflections={ref}, rotations={rot}) maps {[[str(c) for c in p_] for p_ in pts]} to "
+                         f"{[[str(c) for c in o] for o in out]}; the reference-facet symmetry (rotate {rot} times, then reflect {ref} times) gives "
+                         f"{[[str(c) for c in w_] for w_ in want_]}", m.line(h.node))
+            if src != [list(p_) for p_ in pts]:
+                res.fail(key, f"{nm} permutes the caller's points in place: the rule's own points change under the other tables", m.line(h.node))
         key = f"{h.key}:defaults"
         res.ob(key)
         defaults = [ast.unparse(d) for d in h.node.args.defaults]
         if any(d != "0" for d in defaults):
             res.fail(key, f"{nm}: default rotation/reflection counts are {defaults}", m.line(h.node))
-        key = f"{h.key}:copy"
-        res.ob(key)
-        if "output = points.copy()" not in ast.unparse(h.node) or "return output" not in ast.unparse(h.node):
-            res.fail(key, f"{nm} permutes the caller's points in place: the rule's own points change under the other tables", m.line(h.node))
-    # the maps themselves
-    maps = {
-        "permute_quadrature_interval": {"reflections": "[1 - p[0]]"},
-        "permute_quadrature_triangle": {"rotations": "[p[1], 1 - p[0] - p[1]]", "reflections": "[p[1], p[0]]"},
-        "permute_quadrature_quadrilateral": {"rotations": "[p[1], 1 - p[0]]", "reflections": "[p[1], p[0]]"},
-    }
-    for nm, mp in maps.items():
-        h = m.func(nm)
-        for rep, expr in mp.items():
-            key = f"{h.key}:map:{rep}"
-            res.ob(key)
-            lp = [n for n in walk_no_nested(h.node) if isinstance(n, ast.For) and isinstance(n.iter, ast.Call) and n.iter.args
-                  and isinstance(n.iter.args[0], ast.Name) and n.iter.args[0].id == rep]
-            txt = ast.unparse(lp[0]) if lp else ""
-            got = re.search(r"output\[n\] = (\[[^\n]+\])", txt)
-            if not got or _affine(got.group(1)) != _affine(expr):
-                res.fail(key, f"{nm}: one {rep[:-1]} maps a point p to `{got.group(1) if got else '?'}`; the reference-facet symmetry is `{expr}`", m.line(h.node))
 
 
 def _beval(n, env):
@@ -208,31 +221,6 @@ def _beval(n, env):
             left = right
         return True
     raise AnalysisError(f"unsupported boolean expression `{ast.unparse(n)[:60]}`")
-
-
-def _affine(text: str):
-    """Coefficient form of a list of affine expressions in p[0], p[1] (order-insensitive comparison)."""
-    tree = ast.parse(text, mode="eval").body
-    out = []
-    for e in tree.elts:
-        coef = {"1": 0, "p0": 0, "p1": 0}
-
-        def walk(n, sign):
-            if isinstance(n, ast.BinOp) and isinstance(n.op, (ast.Add, ast.Sub)):
-                walk(n.left, sign)
-                walk(n.right, sign if isinstance(n.op, ast.Add) else -sign)
-            elif isinstance(n, ast.UnaryOp) and isinstance(n.op, ast.USub):
-                walk(n.operand, -sign)
-            elif isinstance(n, ast.Constant):
-                coef["1"] += sign * n.value
-            elif isinstance(n, ast.Subscript) and isinstance(n.slice, ast.Constant):
-                coef[f"p{n.slice.value}"] += sign
-            else:
-                coef["?"] = 1
-
-        walk(e, 1)
-        out.append(tuple(sorted(coef.items())))
-    return out
 
 
 @rule(
